@@ -45,7 +45,7 @@ ASSUME = ["gm/ref/lsppos.py and gm/ref/lspedit.py are a faithful reading of LSP 
           "footer line) the in-process hook (frontend op) stands in for the command line"]
 BATCH = 3
 FLOOR = {"quick": 25, "thorough": 150}
-BUDGET = {"quick": 45, "thorough": 780}
+BUDGET = {"quick": 35, "thorough": 780}
 
 REFACTORS = {
     "Extract function": ("reftest-extract-function", ["--name", "extracted"]),
